@@ -17,8 +17,8 @@ RULE = ("closed store graph of config tiny (a[2], s, b[1]@0x401/1/1; 2 values pe
         "1..N members over the member alphabet, run bundled and unbundled. non-trivial = distinct (state, list) with >= 2 "
         "members containing a write or a refused member")
 BOUNDS = {
-    "quick": "INT on the object seam: 14-member alphabet, lists of length 1..3 (2954 lists) from all 16 states; DINT through whole "
-             "frames (logix.process): lists of length 1..2",
+    "quick": "INT on the object seam: 14-member alphabet, lists of length 1..3 (2954 lists) from all 16 states; SINT (1-byte elements: "
+             "odd-length member replies) through whole frames (logix.process): lists of length 1..2",
     "thorough": "INT and REAL on the object seam with the 20-member alphabet, lists of length 1..3 (8420) from 16 states, length 4 "
                 "over an 8-member sub-alphabet; SINT, LINT, SSTRING through whole frames, lists of length 1..3 over 10 members",
 }
@@ -74,12 +74,9 @@ def encode(m):
 
 
 def get_rig(cfgkey):
+    """fresh simulator per state expansion (see props/c03_tags.get_rig)"""
     typ, variant, nvals, seam, via_main = cfgkey[:5]
-    r = _rig.get("rig")
-    if r is None or _rig.get("key") != cfgkey:
-        r = TS.Rig(TS.config(typ, variant), seam=seam, via_main=via_main)
-        _rig["rig"], _rig["key"] = r, cfgkey
-    return r
+    return TS.Rig(TS.config(typ, variant), seam=seam, via_main=via_main)
 
 
 def exec_raw(rig, cip):
@@ -93,7 +90,7 @@ def exec_raw(rig, cip):
     except Exception as exc:
         return None, "logix.process raised %s: %s" % (type(exc).__name__, exc)
     if rpy is None:
-        rig.session = rig.sim.register(rig.addr)       # the failed session ended; continue on a new one
+        rig.renew_session()                            # the failed session ended; continue on a new one
         return None, "encapsulation status 0x%02x" % (status or 0)
     return rpy, None
 
@@ -152,11 +149,11 @@ def check_list(rig, state, lst):
 
 def expand(acc, item, tier, seed):
     cfgkey, states, (k_, K_) = item
-    rig = get_rig(cfgkey)
     typ = cfgkey[0]
-    spec = cfgkey[5] if len(cfgkey) > 5 else None
     lists = list(all_lists(typ, cfgkey))[k_::K_]
     for state in states:
+        rig = get_rig(cfgkey)
+        done = []
         for lst in lists:
             acc.ev()
             acc.count("transitions", 1 + len(lst))
@@ -168,9 +165,10 @@ def expand(acc, item, tier, seed):
                 acc.succ.add((cfgkey, final))
                 acc.outcome("changed")
             for k, m in bad:
-                acc.violation(k, {"cfg": cfgkey, "state": state, "list": lst}, m)
+                acc.violation(k, {"cfg": cfgkey, "state": state, "pre": list(done), "list": lst}, m)
+            done.append(lst)
     if lists:
-        acc.sample({"cfg": cfgkey, "state": states[0], "list": lists[len(lists) // 2]})
+        acc.sample({"cfg": cfgkey, "state": states[0], "pre": [], "list": lists[len(lists) // 2]})
 
 
 def all_lists(typ, cfgkey):
@@ -187,10 +185,10 @@ def all_lists(typ, cfgkey):
 
 def run(ctx):
     if ctx.quick:
-        keys = [("INT", "tiny", 2, "cm", False, 14, 3, 0), ("DINT", "tiny", 2, "rr", True, 14, 2, 0)]
+        keys = [("INT", "tiny", 2, "cm", False, 14, 3, 0), ("SINT", "tiny", 2, "rr", True, 14, 2, 0)]   # SINT: odd-length replies
     else:
         keys = [("INT", "tiny", 2, "cm", False, 20, 3, 4), ("REAL", "tiny", 2, "cm", True, 20, 3, 0),
-                ("SINT", "tiny", 2, "rr", False, 10, 3, 0), ("LINT", "tiny", 2, "rr", True, 10, 3, 0),
+                ("USINT", "tiny", 2, "rr", False, 10, 3, 0), ("LINT", "tiny", 2, "rr", True, 10, 3, 0), ("BOOL", "tiny", 2, "cm", False, 14, 3, 0),
                 ("SSTRING", "tiny", 2, "rr", False, 10, 3, 0)]
     roots = []
     for k in keys:
@@ -219,10 +217,10 @@ def detuple(x):
 
 
 def replay(case):
-    global _rig
-    _rig = {}
     cfgkey = detuple(case["cfg"])
     rig = get_rig(cfgkey)
     state = tuple((n, tuple(v)) for n, v in case["state"])
+    for lst in case.get("pre", []):
+        check_list(rig, state, detuple(lst))          # the lists run earlier on the same simulator (hidden state, if any)
     bad, _, _ = check_list(rig, state, detuple(case["list"]))
     return [m for k, m in bad]
